@@ -20,6 +20,16 @@ type originLeaf struct {
 }
 
 func ssaOrigins(v ssa.Value, stop func(*ssa.Function) bool) []originLeaf {
+	return ssaOriginsX(v, stop, nil)
+}
+
+// ssaOriginsIP additionally follows a parameter to the arguments of every in-repo call site of its function, and a
+// captured variable to what the enclosing function binds when it makes the closure.
+func ssaOriginsIP(p *core.Program, v ssa.Value, stop func(*ssa.Function) bool) []originLeaf {
+	return ssaOriginsX(v, stop, p)
+}
+
+func ssaOriginsX(v ssa.Value, stop func(*ssa.Function) bool, ip *core.Program) []originLeaf {
 	var out []originLeaf
 	seen := map[ssa.Value]map[int]bool{}
 	var rec func(v ssa.Value, idx int, depth int)
@@ -41,6 +51,56 @@ func ssaOrigins(v ssa.Value, stop func(*ssa.Function) bool) []originLeaf {
 				return
 			}
 			out = append(out, originLeaf{v, idx})
+		case *ssa.Parameter:
+			if ip == nil {
+				out = append(out, originLeaf{v, idx})
+				return
+			}
+			fn := x.Parent()
+			k := -1
+			for i, prm := range fn.Params {
+				if prm == x {
+					k = i
+				}
+			}
+			n := 0
+			for _, caller := range repoFuncsAndInstances(ip) {
+				for _, b := range caller.Blocks {
+					for _, in := range b.Instrs {
+						if c, ok := in.(ssa.CallInstruction); ok && c.Common().StaticCallee() == fn && k >= 0 && k < len(c.Common().Args) {
+							n++
+							rec(c.Common().Args[k], idx, depth+1)
+						}
+					}
+				}
+			}
+			if n == 0 {
+				out = append(out, originLeaf{v, idx})
+			}
+		case *ssa.FreeVar:
+			if ip == nil || x.Parent().Parent() == nil {
+				out = append(out, originLeaf{v, idx})
+				return
+			}
+			fn := x.Parent()
+			k := -1
+			for i, fv := range fn.FreeVars {
+				if fv == x {
+					k = i
+				}
+			}
+			n := 0
+			for _, b := range fn.Parent().Blocks {
+				for _, in := range b.Instrs {
+					if mc, ok := in.(*ssa.MakeClosure); ok && mc.Fn == ssa.Value(fn) && k >= 0 && k < len(mc.Bindings) {
+						n++
+						rec(mc.Bindings[k], idx, depth+1)
+					}
+				}
+			}
+			if n == 0 {
+				out = append(out, originLeaf{v, idx})
+			}
 		case *ssa.Phi:
 			for _, e := range x.Edges {
 				rec(e, idx, depth)
